@@ -37,6 +37,18 @@ def run(ctx):
     cases = [(f"item{i}", p, pages.TODAY) for i, p in enumerate(chosen)]
     cases += pc.random_cases(ctx.seed + 12, 150 if ctx.quick else 3000, lines=(6, 40), meta_p=0.35, tag="rt")
     cases += pc.random_cases(ctx.seed + 112, 60 if ctx.quick else 1500, lines=(3, 30), meta_p=0.35, tag="ix", want_zid=True)
+    # runs of spaces inside the first body line are part of the text (seed C12-d): in every third random page some plain
+    # words of item first lines become opaque two-part words with an interior double / triple space
+    for n, (cid, page, _t) in enumerate(cases):
+        if not cid.startswith(("rt", "ix")) or n % 3:
+            continue
+        for l in page["body"]:
+            if l["k"] != "item":
+                continue
+            for j, w in enumerate(l["w"]):
+                if 0 < j and w["c"] == "plain" and w["txt"].isalpha() and rng.random() < 0.4:
+                    w["txt"] = w["txt"] + " " * rng.choice([2, 2, 3]) + "gap"
+                    ctx.add("inner_gap_words")
     recs = pages.compile_cases(cases, roundtrip=True)
     recs_ok = [r for r in recs if r.get("mode") == "roundtrip"]
     ctx.stage("compile + roundtrip")
